@@ -727,7 +727,7 @@ class Server:
             self.pid = self.proc.pid
             _register(self)
             try:
-                self._wait_port(start_timeout)
+                self._wait_port(max(start_timeout, 60))
                 # the port may have been opened by SOMEONE ELSE's listener (another test server taking the port between
                 # free_port() and our bind): our process then dies on `bind: Address already in use` a moment later.
                 # That is a collision of the harness, not a behaviour of trRouting: take another port.
@@ -782,6 +782,8 @@ class Server:
     def get(self, path_and_query, timeout=20):
         """Raw HTTP/1.1 GET with Connection: close.  -> (status code, headers, body); (None, {}, b"") when no (complete
         header of a) response arrives before the timeout or the connection is reset.  A body cut short is returned as is."""
+        if timeout >= 15:
+            timeout = max(timeout, 45)       # ordinary limits: a loaded machine must not turn a slow answer into "no reply"
         deadline = time.time() + timeout
         s = None
         try:
